@@ -2,8 +2,13 @@ package props
 
 import (
 	"bytes"
+	"compress/gzip"
 	"fmt"
 	"time"
+
+	"github.com/andybalholm/brotli"
+	"github.com/klauspost/compress/zstd"
+	"github.com/pierrec/lz4"
 
 	"github.com/vicanso/pike/compress"
 
@@ -35,6 +40,15 @@ func family(n int) map[string][]byte {
 	}
 	m["period2"], m["period3"], m["period257"] = p2, p3, p257
 	m["lcg"] = lcg(n, uint32(n)+7)
+	m["zeros"] = make([]byte, n)
+	zl := append(make([]byte, 0, n), make([]byte, 8)...)
+	for i := 8; len(zl) < n; i++ {
+		zl = append(zl, byte('a'+i%23))
+	}
+	if n < len(zl) {
+		zl = zl[:n]
+	}
+	m["zero-led"] = zl
 	txt := []byte{}
 	for i := 0; len(txt) < n; i++ {
 		txt = append(txt, []byte(fmt.Sprintf("word%d ", i%17))...)
@@ -150,11 +164,11 @@ func init() {
 			if c.Thorough() {
 				lens = append(lens, 1<<20)
 			}
-			st.Bounds = fmt.Sprintf("%d lengths x 6 families x 5 formats", len(lens))
+			st.Bounds = fmt.Sprintf("%d lengths x 8 families x 5 formats; every length 0..4200 for the zeros / zero-led / run families; encoder variants (levels, window sizes, headers)", len(lens))
 			var idx int64
 			for _, n := range lens {
 				fam := family(n)
-				for _, name := range []string{"run", "period2", "period3", "period257", "lcg", "text"} {
+				for _, name := range []string{"run", "period2", "period3", "period257", "lcg", "text", "zeros", "zero-led"} {
 					in := fam[name]
 					for _, enc := range []string{"gzip", "br", "lz4", "zst", "snz"} {
 						idx++
@@ -184,6 +198,52 @@ func init() {
 							}
 							c.Violation("families", sig, fmt.Sprintf("%s len %d (stream %d bytes, ratio %.1f): err %v, got %d bytes", name, n, len(stream), float64(n)/float64(len(stream)+1), err, len(out)), nil, kase, nil)
 						}
+					}
+				}
+			}
+			// every length up to 4200 for three cheap families (catches magic-number / length-coded confusions)
+			for n := 0; n <= 4200; n++ {
+				var fam map[string][]byte
+				for _, name := range []string{"zeros", "zero-led", "run"} {
+					for _, enc := range []string{"gzip", "br", "lz4", "zst", "snz"} {
+						idx++
+						if !c.Mine(idx) {
+							continue
+						}
+						if fam == nil {
+							fam = family(n)
+						}
+						in := fam[name]
+						stream := refEncode(enc, in)
+						if stream == nil {
+							continue
+						}
+						if ref, err := refDecode(enc, stream); err != nil || !bytes.Equal(ref, in) {
+							continue
+						}
+						st.Execs++
+						out, err := srv.Decompress(enc, stream)
+						if err != nil || !bytes.Equal(out, in) {
+							c.Violation("families", "valid-stream-not-restored-"+enc, fmt.Sprintf("%s len %d (stream starts %x): err %v, got %d bytes", name, n, stream[:min(8, len(stream))], err, len(out)), nil, map[string]interface{}{"family": name, "len": n, "enc": enc}, nil)
+						}
+					}
+				}
+			}
+			// streams from other legitimate encoder settings
+			for _, n := range []int{0, 1, 100, 4096, 70000, 600000} {
+				in := family(n)["text"]
+				for vi, v := range encoderVariants(in) {
+					idx++
+					if !c.Mine(idx) {
+						continue
+					}
+					if ref, err := refDecode(v.enc, v.stream); err != nil || !bytes.Equal(ref, in) {
+						continue
+					}
+					st.Execs++
+					out, err, pan, hung := guarded(func() ([]byte, error) { return srv.Decompress(v.enc, v.stream) })
+					if pan != "" || hung || err != nil || !bytes.Equal(out, in) {
+						c.Violation("families", "valid-stream-not-restored-"+v.enc+"-"+v.name, fmt.Sprintf("%d-byte text encoded with %s (%s): err %v %s, got %d bytes", n, v.enc, v.name, err, pan, len(out)), nil, map[string]interface{}{"len": n, "variant": vi, "enc": v.enc, "name": v.name}, nil)
 					}
 				}
 			}
@@ -245,4 +305,63 @@ func init() {
 			st.NOutcomes = int(st.Execs)
 		}
 	})
+}
+
+type encVariant struct {
+	enc, name string
+	stream    []byte
+}
+
+func min(a, b int) int {
+	if a < b {
+		return a
+	}
+	return b
+}
+
+// encoderVariants encodes in with legitimate non-default encoder settings.
+func encoderVariants(in []byte) []encVariant {
+	var out []encVariant
+	for _, lvl := range []int{gzip.NoCompression, gzip.BestSpeed, gzip.BestCompression, gzip.HuffmanOnly} {
+		var b bytes.Buffer
+		w, _ := gzip.NewWriterLevel(&b, lvl)
+		w.Name, w.Comment, w.Extra = "file.txt", "a comment", []byte{1, 2, 3, 4}
+		w.Write(in)
+		w.Close()
+		out = append(out, encVariant{"gzip", fmt.Sprintf("level%d+name+comment+extra", lvl), b.Bytes()})
+	}
+	for _, q := range []int{0, 5, 11} {
+		for _, lgwin := range []int{10, 24} {
+			var b bytes.Buffer
+			w := brotli.NewWriterOptions(&b, brotli.WriterOptions{Quality: q, LGWin: lgwin})
+			w.Write(in)
+			w.Close()
+			out = append(out, encVariant{"br", fmt.Sprintf("quality%d-lgwin%d", q, lgwin), b.Bytes()})
+		}
+	}
+	for _, lv := range []zstd.EncoderLevel{zstd.SpeedFastest, zstd.SpeedDefault, zstd.SpeedBetterCompression, zstd.SpeedBestCompression} {
+		var b bytes.Buffer
+		w, err := zstd.NewWriter(&b, zstd.WithEncoderLevel(lv))
+		if err == nil {
+			w.Write(in)
+			w.Close()
+			out = append(out, encVariant{"zst", "stream-" + lv.String(), b.Bytes()})
+		}
+	}
+	for _, ws := range []int{1 << 10, 1 << 20, 16 << 20, 32 << 20} {
+		var b bytes.Buffer
+		w, err := zstd.NewWriter(&b, zstd.WithWindowSize(ws))
+		if err == nil {
+			w.Write(in)
+			w.Close()
+			out = append(out, encVariant{"zst", fmt.Sprintf("stream-window%d", ws), b.Bytes()})
+		}
+	}
+	if len(in) > 0 {
+		dst := make([]byte, lz4.CompressBlockBound(len(in)))
+		if n, err := lz4.CompressBlockHC(in, dst, 9); err == nil && n > 0 {
+			out = append(out, encVariant{"lz4", "block-hc9", dst[:n]})
+		}
+	}
+	return out
 }
